@@ -46,7 +46,8 @@ type Case struct {
 func init() {
 	rt.Register("c20", rt.Monitor{Run: run, Replay: replay})
 	rt.Register("c20digest", rt.Monitor{Run: runDigest})
-	rt.Register("c20race", rt.Monitor{Run: runRace})
+	// replaying a race-part finding = running the concurrent workload again (same seed)
+	rt.Register("c20race", rt.Monitor{Run: runRace, Replay: func(c *rt.Ctx, _ json.RawMessage) { runRace(c) }})
 }
 
 // canon is the compared form of an output (identity: error texts are outputs of the operation too,
